@@ -372,7 +372,14 @@ func defectKey(p *Pair, c *Case, v *Verdict) string {
 			ranged = true
 		}
 	}
-	if (kind == "cluster" || ranged) && c.CL == 1 {
+	goMonotone := true
+	for i := 1; i < len(v.Go); i++ {
+		back := v.RS.Dir == hbref.DirRTL || v.RS.Dir == hbref.DirBTT
+		if v.Go[i-1].Cluster != v.Go[i].Cluster && (v.Go[i-1].Cluster < v.Go[i].Cluster) == back {
+			goMonotone = false
+		}
+	}
+	if (kind == "cluster" || (ranged && !goMonotone)) && c.CL == 1 {
 		// the defect needs a run whose direction is not the native one
 		nat := p.Resolve(&Case{Font: c.Font, Index: c.Index, Text: c.Text, Off: c.Off, Len: c.Len, Script: scriptString(v.RS.Script)})
 		if v.RS.Dir == hbref.DirBTT || ((v.RS.Dir == hbref.DirLTR || v.RS.Dir == hbref.DirRTL) && v.RS.Dir != nat.Dir) {
